@@ -247,6 +247,9 @@ func init() {
 		fv.assume(st, smt.Or(smt.Eq(slArr(r), smt.IntLit(0)), smt.Eq(slLen(r), smt.IntLit(4))))
 		fv.assume(st, smt.Implies(smt.Eq(slLen(ip), smt.IntLit(4)), smt.Eq(r, ip)))
 		fv.assume(st, smt.Implies(smt.And(smt.Ne(slLen(ip), smt.IntLit(4)), smt.Ne(slLen(ip), smt.IntLit(16))), smt.Eq(slArr(r), smt.IntLit(0))))
+		// a 16-byte address that has a 4-byte form: that form is the slice ip[12:16] of the same array
+		fv.assume(st, smt.Implies(smt.And(smt.Eq(slLen(ip), smt.IntLit(16)), smt.Ne(slArr(r), smt.IntLit(0))),
+			smt.And(smt.Eq(slArr(r), slArr(ip)), smt.Eq(slOff(r), smt.Add(slOff(ip), smt.IntLit(12))))))
 		return []smt.Term{r}
 	}
 	// net.IPMask.Size: (ones, bits) with 0 <= ones <= bits and bits either 0 (non-canonical mask,
